@@ -261,8 +261,26 @@ class ExprMixin:
                 kwargs[k.arg] = self.eval(k.value, env)
         return self.call(fn, args, kwargs)
 
+    def _gen_env(self, env):
+        e = env
+        while e is not None and not hasattr(e, "yielded"):
+            e = getattr(e, "parent", None)
+        if e is None:
+            raise Unsupported("yield outside an eagerly evaluated generator")
+        return e
+
     def ev_Yield(self, node, env):
-        raise Unsupported("yield")
+        ge = self._gen_env(env)
+        ge.yielded.append(None if node.value is None else self.eval(node.value, env))
+        return None  # (a value sent into the generator is not modelled)
+
+    def ev_YieldFrom(self, node, env):
+        ge = self._gen_env(env)
+        src = self.eval(node.value, env)
+        if not isinstance(src, (list, tuple)):
+            raise Unsupported("yield from something that is not a concrete sequence")
+        ge.yielded.extend(src)
+        return None
 
     # ------------------------------------------------------------------ attribute access
     def getattr(self, o, name, env=None):
